@@ -66,7 +66,7 @@ CLAIMS = {
         text="Structural part: add_alt, remove_alt and check_alt of the count-min sketch address the same cell per row "
              "((hash % width) + row*width over enumerate(hashes)); each row gets exactly one store per call of cell +/- num_els or "
              "the clamp constant; on every branch the stored value equals the value reported for that row; all three return "
-             "query(sorted(rows)) and the default query is element 0; the total moves by +/- num_els before the query runs. The "
+             "query(sorted(rows)) and the default query is element 0 (or query(rows) with the default query min(rows): if not every caller sorts, no query may rely on the order); the total moves by +/- num_els before the query runs. The "
              "numeric lower/upper bound is the consequence under array('i') semantics, not a checked fact.",
         design_ref="DESIGN.md section 4 C02"),
     "C09": dict(
@@ -85,7 +85,8 @@ CLAIMS = {
              "appends exactly when forced (push) or ready; appends without room are preceded by "
              "exactly one pop(0), appends with room by none, a pop is always followed by an append; only pop(0)/append touch the "
              "queue (FIFO); pop() refuses a single-element queue before mutating; push forces; add_alt counts every call, inserts "
-             "exactly when force or not present and rotates first; max_queue_size is written only by the constructor. Bounded "
+             "exactly when force or not present and rotates first; max_queue_size is written only by the constructor; the constructor and the alternate constructors "
+             "remove sub-filters from a freshly built / restored queue only as the trimming of an over-long one (len > limit on the path, or a slice stop clamped at 0). Bounded "
              "queue, never empty and the sliding-window clause follow from FIFO plus these bounds.",
         design_ref="DESIGN.md section 4 C10, E8"),
     "C17": dict(
@@ -105,7 +106,9 @@ CLAIMS = {
              "body (or spell out its emission list), the cuckoo empty-slot marker is outside the fingerprint interval, inherited alternate "
              "constructors build cls, a raw array initialiser is bytes (not an iterated buffer), Bloom constructors take the documented "
              "precedence file / hex string / parameters; a field the parameter branch of a constructor computes is not left at a placeholder constant by the loading branch; "
-             "sub-structures built while loading are given the hashing strategy the structure ends up with. "
+             "sub-structures built while loading are given the hashing strategy the structure ends up with (constructor and every alternate constructor that takes it); "
+             "a field packed into an unsigned footer slot is not given the answer of a method that can return a negative constant (open finding D16: the estimate's -1 "
+             "reaches elements_added of a saturated union / intersection, which then cannot be exported). "
              "Query-by-query equality and byte-exact re-export are consequences, not checked facts.",
         design_ref="DESIGN.md section 4 C05, E6"),
     "C07": dict(
@@ -185,7 +188,7 @@ CLAIMS = {
              "index from the entry now in hand; callers pass an entry with its own candidate indices; insertion only on the not-present "
              "branch; counting bins are never built with a possibly-zero count and a decrement is followed by the ==0 -> remove test; "
              "capacity is written only by constructor/loaders and as capacity * expansion_rate (a value handed to a private helper is "
-             "decided at its call sites). Tables loaded from foreign files are "
+             "decided at its call sites); a bucket appended to the table in a loop is built or copied in that round (never one object created before the loop) and the table is not [bucket] * n. Tables loaded from foreign files are "
              "outside the claim.",
         design_ref="DESIGN.md section 4 C15"),
     "C04": dict(
@@ -204,7 +207,8 @@ CLAIMS = {
              "stored into them, is also bounded by an index comparison, and a walk that ended at that bound is followed by the re-marking pass "
              "(written from defect D14: removal from a table without an empty slot did not return; repaired in /repo). NOT decided - and this is the heart of the property: that "
              "run/cluster shifting keeps the layout canonical for every neighbourhood shape, and termination of the other cyclic walks (insertion shift, start search), "
-             "which rest on 'the table is not full' / 'a non-empty table has a cluster start'.",
+             "which rest on 'the table is not full' / 'a non-empty table has a cluster start'. merge walks a snapshot of the operand's hashes (a list), or excludes second is self, "
+             "while it inserts into the receiver (written from defect D15, repaired in /repo).",
         design_ref="DESIGN.md section 4 C04"),
 }
 
